@@ -11,30 +11,60 @@ Proof. intros (Hx & Hy & Hz). unfold nnodes. nia. Qed.
 Lemma nel_lt_nnodes g : wf g -> nel g < nnodes g.
 Proof. intros (Hx & Hy & Hz). unfold nel, nnodes, nz1. nia. Qed.
 
-(* ---- classification by total size ---- *)
-Theorem classify_cell g shape c : wf g -> size shape = c * nel g -> classify g shape = Cell.
+(* ---- classification: vectors by their size, block vectors (2-D arrays) by the length of their axes ---- *)
+Lemma class_sizes_not2 shape : length shape <> 2%nat -> class_sizes shape = [size shape].
 Proof.
-  intros Hwf E. unfold classify. rewrite E, Z.mod_mul by (pose proof (nel_pos g Hwf); lia). reflexivity.
+  intros H. unfold class_sizes, ndim. destruct (Z.eqb_spec (Z.of_nat (length shape)) 2) as [E|_]; [lia|reflexivity].
+Qed.
+
+Theorem classify_cell g shape c : wf g -> length shape <> 2%nat -> size shape = c * nel g -> classify g shape = Cell.
+Proof.
+  intros Hwf H2 E. unfold classify. rewrite class_sizes_not2 by exact H2. cbn [existsb].
+  rewrite E, Z.mod_mul by (pose proof (nel_pos g Hwf); lia). reflexivity.
 Qed.
 
 Theorem classify_point g shape c :
-  wf g -> size shape = c * nnodes g -> (c * nnodes g) mod nel g <> 0 -> classify g shape = Point.
+  wf g -> length shape <> 2%nat -> size shape = c * nnodes g -> (c * nnodes g) mod nel g <> 0 ->
+  classify g shape = Point.
 Proof.
-  intros Hwf E Hne. unfold classify. rewrite E.
+  intros Hwf H2 E Hne. unfold classify. rewrite class_sizes_not2 by exact H2. cbn [existsb]. rewrite E.
   destruct (Z.eqb_spec ((c * nnodes g) mod nel g) 0) as [H|_]; [contradiction|].
   rewrite Z.mod_mul by (pose proof (nnodes_pos g Hwf); lia). reflexivity.
 Qed.
 
+Lemma existsb_false {A} (f : A -> bool) l : Forall (fun x => f x = false) l -> existsb f l = false.
+Proof. induction 1 as [|x t Hx _ IH]; [reflexivity|]. cbn. now rewrite Hx, IH. Qed.
+
 Theorem classify_skip g shape :
-  size shape mod nel g <> 0 -> size shape mod nnodes g <> 0 -> classify g shape = Skip.
+  Forall (fun s => s mod nel g <> 0 /\ s mod nnodes g <> 0) (class_sizes shape) -> classify g shape = Skip.
 Proof.
-  intros H1 H2. unfold classify.
-  destruct (Z.eqb_spec (size shape mod nel g) 0); [contradiction|].
-  destruct (Z.eqb_spec (size shape mod nnodes g) 0); [contradiction|]. reflexivity.
+  intros H. unfold classify. rewrite !existsb_false; [reflexivity| |].
+  - eapply Forall_impl; [|exact H]. intros s (_ & Hs). cbv beta. now destruct (Z.eqb_spec (s mod nnodes g) 0).
+  - eapply Forall_impl; [|exact H]. intros s (Hs & _). cbv beta. now destruct (Z.eqb_spec (s mod nel g) 0).
 Qed.
 
-(* "element and node counts are not multiples of each other" alone does not make the size test decide correctly:
-   on the 4 x 3 x 1 grid (nel = 12, nnodes = 40) a 3-component nodal vector has 120 = 10 * 12 entries *)
+(* blocks: an axis of c*nel entries makes cell data, whatever the other axis is *)
+Theorem classify_block_cell g k c : wf g -> classify g [k; c * nel g] = Cell /\ classify g [c * nel g; k] = Cell.
+Proof.
+  intros Hwf. pose proof (nel_pos g Hwf). unfold classify, class_sizes. change (ndim [k; c * nel g] =? 2) with true.
+  change (ndim [c * nel g; k] =? 2) with true. cbn [existsb].
+  rewrite Z.mod_mul, Z.eqb_refl by lia. now rewrite orb_true_r.
+Qed.
+
+(* blocks: an axis of c*nnodes entries makes point data as soon as NO AXIS is a multiple of nel; the total size
+   k*c*nnodes plays no role *)
+Theorem classify_block_point g k c : wf g -> k mod nel g <> 0 -> (c * nnodes g) mod nel g <> 0 ->
+  classify g [k; c * nnodes g] = Point /\ classify g [c * nnodes g; k] = Point.
+Proof.
+  intros Hwf Hk Hc. pose proof (nnodes_pos g Hwf). unfold classify, class_sizes.
+  change (ndim [k; c * nnodes g] =? 2) with true. change (ndim [c * nnodes g; k] =? 2) with true. cbn [existsb].
+  destruct (Z.eqb_spec (k mod nel g) 0); [contradiction|].
+  destruct (Z.eqb_spec ((c * nnodes g) mod nel g) 0); [contradiction|].
+  rewrite Z.mod_mul, Z.eqb_refl by lia. cbn. now rewrite orb_true_r.
+Qed.
+
+(* "element and node counts are not multiples of each other" alone does not make the size test decide correctly for
+   plain vectors: on the 4 x 3 x 1 grid (nel = 12, nnodes = 40) a 3-component nodal vector has 120 = 10 * 12 entries *)
 Theorem classification_literal_refuted :
   exists g c, wf g /\ nnodes g mod nel g <> 0 /\ nel g mod nnodes g <> 0 /\ 1 <= c <= 3 /\
               classify g [c * nnodes g] = Cell.
@@ -267,7 +297,6 @@ Proof.
     apply mk_array_words_ok. destruct (ax =? 0); [apply block_col_Forall | apply block_row_Forall]; assumption.
   - match goal with |- context [if ?nv <? 1 then _ else _] => destruct (nv <? 1) end.
     { intros E. inversion E. constructor. }
-    match goal with |- context [if ?b then Err _ else _] => destruct b end; [discriminate|].
     intros E. inversion E; subst. constructor; [|constructor]. now apply mk_array_words_ok.
 Qed.
 
@@ -485,25 +514,37 @@ Proof.
   intros k Hk. apply pad_spec_nth. lia.
 Qed.
 
-(* ---- defects of the code that the faithful model reproduces (witnesses of the findings reported for C20) ---- *)
-(* two nodal 2-D vector fields as a 2 x 18 block on the 2 x 2 grid: axis 1 is 2*nnodes, no axis is a multiple of nel,
-   but the total size 36 is: sorted into cell data, no axis found -> TypeError *)
-Theorem block_total_size_refuted :
-  exists g k c, wf g /\ 1 < k /\ k mod nel g <> 0 /\ k mod nnodes g <> 0 /\ (c * nnodes g) mod nel g <> 0 /\
-    forall key ws, vti_arrays g [(key, [k; c * nnodes g], ws)] = Err TypeError.
+(* ---- repaired defects F21 / F22: what holds now ---- *)
+(* a single-vector block (shape 1 x c*n or c*n x 1) is written like the plain vector, padding included *)
+Theorem entry_single_vector_block point dim2 n key ws c : 1 < n ->
+  entry_arrays point dim2 n key [1; c * n] ws = Ok [mk_array point (point && (c =? 2) && dim2) n c key ws] /\
+  entry_arrays point dim2 n key [c * n; 1] ws = Ok [mk_array point (point && (c =? 2) && dim2) n c key ws].
 Proof.
-  exists {| nelx := 2; nely := 2; nelz := 0 |}, 2, 2. unfold wf. cbn. repeat split; try lia; discriminate.
-Qed.
-
-(* a block with ONE 2-component nodal vector on a 2-D domain: the 2-D array reaches the padding code -> ValueError *)
-Theorem single_vector_block_refuted : forall n key ws, 1 < n ->
-  entry_arrays true true n key [1; 2 * n] ws = Err ValueError /\
-  entry_arrays true true n key [2 * n; 1] ws = Err ValueError.
-Proof.
-  intros n key ws Hn. split.
+  intros Hn. split.
   - unfold entry_arrays. cbn [find_ax]. rewrite Z.mod_1_l by lia. cbn [Z.eqb].
     rewrite Z.mod_mul, Z.eqb_refl by lia. change (Z.to_nat (0 + 1)) with 1%nat. cbn [nth].
     rewrite Z.div_mul by lia. reflexivity.
   - unfold entry_arrays. cbn [find_ax]. rewrite Z.mod_mul, Z.eqb_refl by lia.
     change (Z.to_nat 0) with 0%nat. cbn [nth]. rewrite Z.div_mul by lia. reflexivity.
 Qed.
+
+(* a block of k nodal vectors is written as k point arrays whenever no axis is a multiple of nel -- also when the
+   total size is one (the 2 x 18 block on the 2 x 2 grid) *)
+Theorem block_point_arrays g key k c ws :
+  wf g -> 1 < k -> k mod nel g <> 0 -> k mod nnodes g <> 0 -> (c * nnodes g) mod nel g <> 0 ->
+  vti_arrays g [(key, [k; c * nnodes g], ws)] =
+  Ok (map (fun i => mk_array true (true && (c =? 2) && (dim g =? 2)) (nnodes g) c (vec_name true k key i)
+                             (block_row (c * nnodes g) i ws)) (zrange k)).
+Proof.
+  intros Hwf Hk Hkn Hkm Hc. pose proof (nnodes_pos g Hwf) as Hp.
+  destruct (classify_block_point g k c Hwf Hkn Hc) as (Ecl & _).
+  unfold vti_arrays, point_arrays, cell_arrays, point_vecs, cell_vecs. cbn [filter].
+  unfold is_kind, vshape. cbn [fst snd]. rewrite Ecl. cbn [map collect].
+  unfold vkey, vshape, vwords. cbn [fst snd].
+  rewrite (entry_block_rows true (dim g =? 2) (nnodes g) key ws Hp k c Hk Hkm). now rewrite app_nil_r.
+Qed.
+
+Example block_point_arrays_witness :   (* the former failing input: hypotheses hold, total size 36 = 9 * nel *)
+  let g := {| nelx := 2; nely := 2; nelz := 0 |} in
+  wf g /\ 2 mod nel g <> 0 /\ 2 mod nnodes g <> 0 /\ (2 * nnodes g) mod nel g <> 0 /\ (2 * (2 * nnodes g)) mod nel g = 0.
+Proof. unfold wf. cbn. repeat split; try lia; discriminate. Qed.
